@@ -1,6 +1,7 @@
 import Pyxv.Proofs.JValLemmas
 import Pyxv.Proofs.ToJsonLemmas
 import Pyxv.Proofs.FromJsonLemmas
+import Pyxv.Proofs.QStable
 import Pyxv.Model.OpsToJson
 /-!
 # C16 — the JSON intermediate form is a faithful, reloadable representation: property theorems
@@ -196,25 +197,59 @@ really reloaded survey on every generated form that falls inside the fragment.
 theorem genCfg_secOk : SecOk genCfg := by
   constructor <;> decide +kernel
 
-/-- dump, load, dump on whole element trees (PARTIAL: the hypothesis `QStable cfg` — own-level stability of a
-    question through `Question.__init__`'s type-table merge, `_qtd_kwargs` and the non-dict defaults — is proof
-    debt, not a defect: it is not proved here; it is checked by the correspondence run on every generated
-    question).  For every dict `d` the builder model accepts — surveys, groups, repeats nested to any depth,
-    any slot values — the survey it builds dumps to a dict that the builder accepts again, and the survey
-    built from that dumps to the same dict (keys, order, values). -/
-theorem dump_stable_tree_partial (cfg : Cfg) (ok : SecOk cfg) (hq : QStable cfg) (f : Nat) (d : J) (e : El)
+/-- the facts about the regenerated question slot tuples and about every entry of the regenerated type table
+    that the question part uses (distinct keys per entry; no entry has a key `type`, `name`, `trigger`,
+    `children`, `choices`, `itemset`, `list_name`; those slots exist and are not deleted by `to_json_dict`). -/
+theorem genCfg_qOk : QOk genCfg :=
+  QOk.of_all genCfg (by constructor <;> decide +kernel) (by constructor <;> decide +kernel)
+    (by decide +kernel) (by decide +kernel) (by decide +kernel) (by decide +kernel) (by decide +kernel)
+
+/-- a question built by the builder (type-table merge, `_qtd_kwargs`, non-dict defaults) dumps to a dict that
+    the builder accepts again, and the question built from that dumps to the same dict — for the tables of
+    the current source. -/
+theorem question_dump_stable : QStable genCfg := question_stable genCfg genCfg_qOk
+
+/-- dump, load, dump on whole element trees, for the tables regenerated from the source: for every dict `d`
+    the builder model accepts — surveys, groups, repeats nested to any depth, questions of every type of the
+    type table with any given bind/control/hint/… values — the survey it builds dumps to a dict that the
+    builder accepts again, and the survey built from that dumps to the same dict (keys, order, values). -/
+theorem dump_stable_tree (f : Nat) (d : J) (e : El) (h : fromJson genCfg f d = some e) :
+    ∃ e', fromJson genCfg f (toJson e []) = some e' ∧ toJson e' [] = toJson e [] := by
+  obtain ⟨e', h1, h2⟩ := stable_all genCfg genCfg_secOk question_dump_stable f d e h [] (by simp)
+  exact ⟨e', h1, h2 [] (by simp)⟩
+
+/-- non-vacuity with the real tables: a survey with a group (with a bind) holding a `phone number` question with
+    a user hint and a user constraint is accepted by the builder model, hence round-trips. -/
+example : ∃ e e', fromJson genCfg 4 (.obj [(k!"type", .str k!"survey"), (k!"name", .str k!"data"),
+      (k!"children", .arr [.obj [(k!"name", .str k!"g"), (k!"type", .str k!"group"),
+        (k!"bind", .obj [(k!"relevant", .str k!"1 = 1")]),
+        (k!"children", .arr [.obj [(k!"name", .str k!"p"), (k!"type", .str k!"phone number"),
+          (k!"hint", .str k!"my hint"), (k!"bind", .obj [(k!"constraint", .str k!". > 0")])]])]])]) = some e ∧
+    fromJson genCfg 4 (toJson e []) = some e' ∧ toJson e' [] = toJson e [] := by
+  have hsome : (fromJson genCfg 4 (.obj [(k!"type", .str k!"survey"), (k!"name", .str k!"data"),
+      (k!"children", .arr [.obj [(k!"name", .str k!"g"), (k!"type", .str k!"group"),
+        (k!"bind", .obj [(k!"relevant", .str k!"1 = 1")]),
+        (k!"children", .arr [.obj [(k!"name", .str k!"p"), (k!"type", .str k!"phone number"),
+          (k!"hint", .str k!"my hint"), (k!"bind", .obj [(k!"constraint", .str k!". > 0")])]])]])])).isSome = true := by
+    decide +kernel
+  obtain ⟨e, he⟩ := Option.isSome_iff_exists.mp hsome
+  obtain ⟨e', h1, h2⟩ := dump_stable_tree 4 _ e he
+  exact ⟨e, e', he, h1, h2⟩
+
+/-- …composed with the text layer: dump, `json.dumps`, `json.loads`, build, dump gives the same dict
+    (`UniqueKeys`: the dump is a nest of Python dicts). -/
+theorem text_tree_roundtrip (f : Nat) (d : J) (e : El) (h : fromJson genCfg f d = some e)
+    (hu : UniqueKeys (toJson e [])) :
+    ∃ e', (parse (print (toJson e []))).bind (fromJson genCfg f) = some e' ∧ toJson e' [] = toJson e [] := by
+  rw [loads_dumps _ hu]
+  exact dump_stable_tree f d e h
+
+/-- the same for any configuration satisfying the table facts (used for the example below) -/
+theorem dump_stable_tree_cfg (cfg : Cfg) (ok : SecOk cfg) (hq : QStable cfg) (f : Nat) (d : J) (e : El)
     (h : fromJson cfg f d = some e) :
     ∃ e', fromJson cfg f (toJson e []) = some e' ∧ toJson e' [] = toJson e [] := by
   obtain ⟨e', h1, h2⟩ := stable_all cfg ok hq f d e h [] (by simp)
   exact ⟨e', h1, h2 [] (by simp)⟩
-
-/-- …composed with the text layer: dump, `json.dumps`, `json.loads`, build, dump gives the same dict
-    (`UniqueKeys`: the dump is a nest of Python dicts). -/
-theorem text_tree_roundtrip_partial (cfg : Cfg) (ok : SecOk cfg) (hq : QStable cfg) (f : Nat) (d : J) (e : El)
-    (h : fromJson cfg f d = some e) (hu : UniqueKeys (toJson e [])) :
-    ∃ e', (parse (print (toJson e []))).bind (fromJson cfg f) = some e' ∧ toJson e' [] = toJson e [] := by
-  rw [loads_dumps _ hu]
-  exact dump_stable_tree_partial cfg ok hq f d e h
 
 /-- a configuration without question types: sections only; there `QStable` holds trivially and the two
     theorems are unconditional. -/
@@ -228,7 +263,7 @@ def sectionsOnly : Cfg where
   knownTags := []
 
 theorem sectionsOnly_qstable : QStable sectionsOnly := by
-  intro t kvs e h
+  intro t kvs e _ h
   simp only [questionFromJson, sectionsOnly, lookup] at h
   split at h
   · cases h
@@ -242,7 +277,7 @@ example : ∃ e e', fromJson sectionsOnly 3 (.obj [(k!"type", .str k!"survey"), 
       (k!"version", .str k!"3"), (k!"children", .arr [.obj [(k!"name", .str k!"g"), (k!"type", .str k!"group"),
         (k!"bind", .obj [(k!"relevant", .str k!"1 = 1")]), (k!"junk", .null)]])])).isSome = true := by decide
   obtain ⟨e, he⟩ := Option.isSome_iff_exists.mp hsome
-  obtain ⟨e', h1, h2⟩ := dump_stable_tree_partial sectionsOnly (by constructor <;> decide) sectionsOnly_qstable 3 _ e he
+  obtain ⟨e', h1, h2⟩ := dump_stable_tree_cfg sectionsOnly (by constructor <;> decide) sectionsOnly_qstable 3 _ e he
   exact ⟨e, e', he, h1, h2⟩
 
 end Pyxv.C16
